@@ -249,7 +249,7 @@ def isChannel (s : Str) : Bool :=
   | [] => false
   | c0 :: _ =>
     !s.contains ',' && !s.contains (Char.ofNat 7) && Gen.chantypes.contains c0 &&
-      decide (s.length ≤ Gen.channellen) && (splitNone1 s).length == 1
+      decide (s.length ≤ Gen.channellen) && splitWs s == [s]
 
 def Bot.chan (b : Bot) (name : Str) : Option Chan := aget b.channels (lower name)
 def Bot.setChan (b : Bot) (name : Str) (c : Chan) : Bot :=
